@@ -73,7 +73,7 @@ func init() {
 				}
 				var r *RPCPlan
 				if c.Prob(0.7) {
-					r = genRESTClientRPC(c, &cfg, restMethods[c.Intn(12)])
+					r = genRESTClientRPC(c, &cfg, restMethods[c.Intn(11)])
 				} else {
 					r = genRPC(c, ScenOpts{MaxMsgs: 2, MaxBytes: 40, NoErr: true})
 				}
